@@ -217,9 +217,9 @@ def ValidShape : Term α → Prop
   | ramp s e _ => s ≠ e
   | rectangle _ _ _ => True
   | semiEllipse s e _ => s ≠ e
-  | sigmoid _ _ _ => True
-  | sigmoidDifference _ _ _ _ _ => True
-  | sigmoidProduct _ _ _ _ _ => True
+  | sigmoid _ sl _ => sl ≠ 0
+  | sigmoidDifference _ r f _ _ => r ≠ 0 ∧ f ≠ 0
+  | sigmoidProduct _ r f _ _ => r ≠ 0 ∧ f ≠ 0
   | spike _ w _ => w ≠ 0
   | sShape s e _ => s < e
   | trapezoid a b c d _ => LeftEnd a b ∧ b ≤ c ∧ RightEnd c d
@@ -286,6 +286,65 @@ def mu (F : Fn α) : Term α → α → α
   | .trapezoid a b c d h => Mu.trapezoid a b c d h
   | .triangle a b c h => Mu.triangle a b c h
   | .zShape s e h => Mu.zShape s e h
+
+/-- limit of a unit sigmoid with slope `sl ≠ 0` at `+∞` (`1 -` this at `−∞`) -/
+def sigLim (sl : α) : α := if 0 < sl then 1 else 0
+
+/-- the value the documentation assigns at `x = +∞` (the limit of the closed form) -/
+def atPinf : Term α → α
+  | .arc s e h => if s < e then h else 0
+  | .bell _ _ sl h => if sl = 0 then h / 2 else 0
+  | .binary _ d h => if d = .pinf then h else 0
+  | .concave i e h => if i < e then h else 0
+  | .constant k => k
+  | .cosine .. => 0
+  | .discrete pts h => h * Op.lastY 0 pts
+  | .gaussian .. => 0
+  | .gaussianProduct .. => 0
+  | .piShape .. => 0
+  | .ramp s e h => if s < e then h else 0
+  | .rectangle .. => 0
+  | .semiEllipse .. => 0
+  | .sigmoid _ sl h => h * sigLim sl
+  | .sigmoidDifference _ r f _ h => h * |sigLim r - sigLim f|
+  | .sigmoidProduct _ r f _ h => h * (sigLim r * sigLim f)
+  | .spike .. => 0
+  | .sShape _ _ h => h
+  | .trapezoid _ _ _ d h => if d = .pinf then h else 0
+  | .triangle _ _ c h => if c = .pinf then h else 0
+  | .zShape .. => 0
+
+/-- the value the documentation assigns at `x = −∞` -/
+def atNinf : Term α → α
+  | .arc s e h => if s < e then 0 else h
+  | .bell _ _ sl h => if sl = 0 then h / 2 else 0
+  | .binary _ d h => if d = .ninf then h else 0
+  | .concave i e h => if i < e then 0 else h
+  | .constant k => k
+  | .cosine .. => 0
+  | .discrete pts h => h * (match pts with | [] => 0 | p :: _ => p.2)
+  | .gaussian .. => 0
+  | .gaussianProduct .. => 0
+  | .piShape .. => 0
+  | .ramp s e h => if s < e then 0 else h
+  | .rectangle .. => 0
+  | .semiEllipse .. => 0
+  | .sigmoid _ sl h => h * (1 - sigLim sl)
+  | .sigmoidDifference _ r f _ h => h * |(1 - sigLim r) - (1 - sigLim f)|
+  | .sigmoidProduct _ r f _ h => h * ((1 - sigLim r) * (1 - sigLim f))
+  | .spike .. => 0
+  | .sShape .. => 0
+  | .trapezoid a _ _ _ h => if a = .ninf then h else 0
+  | .triangle a _ _ h => if a = .ninf then h else 0
+  | .zShape _ _ h => h
+
+/-- the documented membership function on extended arguments: NaN exactly at NaN (`Constant` ignores its
+    argument), the limits at `±∞`, the closed form elsewhere -/
+def muX (F : Fn α) (t : Term α) : X α → X α
+  | .fin x => .fin (mu F t x)
+  | .pinf => .fin (atPinf t)
+  | .ninf => .fin (atNinf t)
+  | .nan => match t with | .constant k => .fin k | _ => .nan
 
 /-- the classes that declare themselves monotonic (`is_monotonic()`) -/
 def isMonotonic : Term α → Bool
